@@ -8,7 +8,7 @@ CORR_MODULES = ["Sched.TimerCorr"]
 PREFIX = "C42"
 CASE_TYPE = "C42_case"
 HARNESS = "c42"
-KNOWN = {1: "C42-timeout-unseen-wake"}
+KNOWN = {}
 RULE = ("one case = one run of the real std_runtime code: a script of sleep/poll/drop/is_elapsed/reset/wait/barrier "
         "operations on one TimerDriver (recording wakers, recorded Instants), or one block_timeout / block_on call on a "
         "scripted multi-stage future, or a set of tasks on one Executor; all random choices from one PRNG; distinct = "
@@ -27,8 +27,7 @@ ASSUMPTIONS = ["PARTIAL: OS scheduling latency, park/unpark and the accuracy of 
                "steps wake every due entry (no bound on how long the OS takes to run it)",
                "'a dropped sleep never wakes its task' is proved from the moment the Cancel message has been consumed; "
                "between drop and consumption a wake-up is possible (witness theorem)",
-               "block_timeout: futures are taken to be well behaved (completion wakes the waker); Timeout returned from "
-               "the else branch while a wake token is pending is the recorded class C42-timeout-unseen-wake",
+               "block_timeout: futures are taken to be well behaved (completion wakes the waker)",
                "Duration so large that Instant::checked_add overflows is replaced by one day by the code; "
                "'not before the duration' is claimed when now + duration is representable"]
 
@@ -93,7 +92,8 @@ def gen_bt(r):
     if k < 0.95:
         # completes only long after the duration
         return "bt %d %d 0 e400000" % (r.choice([500, 2000, 5000]), v)
-    # the recorded class: the poll that saw "not complete" ends after the duration (stall inside poll)
+    # regression family of the fixed finding C42-timeout-unseen-wake (8591c31): the poll that saw "not complete" ends
+    # after the duration (stall inside poll) while the future completed in time -> must return Ok
     return "bt %d %d %d e%d" % (r.choice([20000, 25000, 30000]), v, r.choice([70000, 90000]), r.choice([1000, 3000]))
 
 
@@ -140,7 +140,11 @@ def corpus():
         "bt 2000 7 0 x",
         "bt 0 7 0 x",
         "bt 1000 7 0 y+x",
-        "bt 25000 7 70000 e3000",                       # C42-timeout-unseen-wake
+        # regression for the fixed finding C42-timeout-unseen-wake (8591c31): completed after 3 ms, the poll that saw
+        # "not complete" returns after 70 ms > 25 ms: used to be Timeout, must be Ok(7) (try_recv + last poll)
+        "bt 25000 7 70000 e3000",
+        "bt 20000 -5 90000 y+e1000",
+        "bt 5000 3 30000 e500+x",                       # same stall, but the future never completes: Timeout
         # regression for the fixed finding C42-block-timeout-self-wake-deadlock (7de0553): these hung
         # (always / when the e0 completer won the race) while the waker did a blocking send
         "bt 1000 1 0 Y",
@@ -335,8 +339,9 @@ MANIFEST = {
              "after the Cancel message of a dropped Sleep has been consumed no wake-up for it is ever issued (a witness "
              "shows the window between drop and consumption), the executor's join handshake never loses the wake-up and a "
              "finished task is never polled again, block_on returns exactly the future's output, "
-             "block_timeout returns Timeout only after the whole duration and - outside one recorded class - only if "
-             "the future had not completed by then. The model is tied to the code by running the real public "
+             "block_timeout returns Timeout only after the whole duration and only if the future had not completed by "
+             "then (a wake that arrived when the duration ran out is seen: try_recv + one last poll), a wake from inside "
+             "poll never blocks. The model is tied to the code by running the real public "
              "std_runtime API under recording wakers with recorded Instants and replaying every trace through the "
              "model's step functions inside Coq; the property oracle (ordering facts between recorded Instants only) "
              "is applied to the implementation's own traces."),
@@ -345,7 +350,7 @@ MANIFEST = {
              "bound. Executor spawn/join: the join handshake is proved on its own small model; real executor runs are "
              "checked by the trace oracle only. Trusted: Coq kernel + vm_compute, the "
              "hand models, the harness (recording RawWaker, Debug parsing of Sleep/Instant), std mpsc semantics. "
-             "Axioms: none. Known finding C42-timeout-unseen-wake: block_timeout returns Timeout from its else branch "
-             "without looking at the channel."),
+             "Axioms: none. Both findings of this property (C42-timeout-unseen-wake, C42-block-timeout-self-wake-deadlock) "
+             "are fixed in /repo; the model follows the fixed code and their inputs are regression cases."),
     "technique": "Coq proof (invariants over all interleavings) + trace replay of the real runtime inside Coq + oracle on recorded Instants",
 }
